@@ -19,8 +19,8 @@ TInit == /\ l = 1 /\ i0 = 1 /\ errl = 0 /\ nchg = 0 /\ touched = {} /\ Trace[1].
          /\ obj = ObjOf(Trace[1].dev) /\ mode = NoMode /\ err = ""
 IsChange(e) == e.ev \notin {"Init", "Resume", "Done"}
 Dispatch(e) ==
-  CASE e.ev = "TopLine"   -> TopLine(e.k, e.kind, e.name, e.tx, e.r)
-    [] e.ev = "TopNoLine" -> TopNoLine(e.k, e.tx, e.r)
+  CASE e.ev = "TopLine"   -> TopLine(e.k, e.kind, e.name, e.m, e.tx, e.r)
+    [] e.ev = "TopNoLine" -> TopNoLine(e.k, e.m, e.tx, e.r)
     [] e.ev = "SubEnter"  -> SubEnter(e.k, e.kind, e.name, e.m)
     [] e.ev = "SubLine"   -> SubLine(e.tx, e.r)
     [] e.ev = "SubNoLine" -> SubNoLine(e.tx, e.r)
@@ -47,13 +47,21 @@ TSpec == TInit /\ [][TNext]_<<dvars, tvars>>
 -----------------------------------------------------------------------------
 (* Equivalence (C01): canonical expansion rooted at the anchors; names of objects whose name *)
 (* is generated are erased, references are replaced by the expansion of their target         *)
-AnchorKinds == {"user", "tgm", "webvpn"}
-FixedKinds  == {"user", "tgm", "webvpn"}
+AnchorKinds == {"user", "tgm", "webvpn", "cmi"}
+FixedKinds  == {"user", "tgm", "webvpn", "cmi"}
 Anchors(o) == {k \in DOMAIN o : o[k].kind \in AnchorKinds /\ o[k].lines # {}}
 
 RECURSIVE Expand(_, _, _)
 Expand(o, k, d) ==
   IF d = 0 \/ k \notin DOMAIN o THEN [kind |-> "?", name |-> k, lines |-> {}]
+  ELSE IF o[k].kind = "cmap"
+  \* a crypto map is the set of its entries: sequence numbers (and the name) are free, an entry
+  \* is the set of its settings
+  THEN [kind |-> "cmap", name |-> "",
+        lines |-> {[m |-> "*", t |-> "entry",
+                    r |-> <<[kind |-> "entry", name |-> "",
+                             lines |-> {[m |-> "", t |-> ln.t, r |-> [i \in DOMAIN ln.r |-> Expand(o, ln.r[i], d - 1)]] :
+                                          ln \in {x \in o[k].lines : x.m = s}}]>>] : s \in {ln.m : ln \in o[k].lines}}]
   ELSE [kind |-> o[k].kind,
         name |-> IF o[k].kind \in FixedKinds THEN o[k].name ELSE "",
         lines |-> {[m |-> ln.m, t |-> ln.t, r |-> [i \in DOMAIN ln.r |-> Expand(o, ln.r[i], d - 1)]] : ln \in o[k].lines}]
@@ -75,13 +83,22 @@ FrameViol ==
 KF_SharedObjectEdit == FrameViol = "object outside Netspoc's scope deleted or changed"
                        /\ \A k \in Changed0 : k \in ManagedReach0
 
+\* Known finding (C10): the cut fell inside a new crypto map entry before its `set peer` line: the device
+\* holds an entry without peer and the resumed run aborts with "Missing peer or dynamic in crypto map"
+PeerTexts == {"set peer 10.9.9.1", "set peer 10.9.9.2", "set peer 10.9.9.3"}
+KF_Resume ==
+  IF /\ l > 1 /\ Trace[l - 1].ev = "Resume" /\ LastEv.n2 = -1
+     /\ \E k \in DOMAIN obj : /\ obj[k].kind = "cmap"
+                             /\ \E s \in {ln.m : ln \in obj[k].lines} : ~\E ln \in obj[k].lines : ln.m = s /\ ln.t \in PeerTexts
+  THEN "AsaCryptoIncompleteEntry" ELSE ""
+
 Post(j) == obj = ObjOf(j)
 Chk(ok, tag, detail, kf) == ok \/ PrintT(<<"VERR", LastEv.t, l, tag, detail, kf>>)
 Mon ==
   /\ Chk(~(err # "" /\ errl = l), "C08", err, "")
   /\ Chk(LastEv.ev = "Init" \/ FrameViol = "", "C07", FrameViol, IF KF_SharedObjectEdit THEN "SharedObjectEdit" ELSE "")
   /\ Chk(LastEv.ev \in {"Resume", "Done"} => Post(LastEv.post), "HARNESS", "post state of replica differs", "")
-  /\ Chk(LastEv.ev = "Done" => Equivalent, "EQUIV", IF nchg = 0 THEN "unchanged" ELSE "final", "")
-  /\ Chk(LastEv.ev = "Done" => LastEv.n2 = 0, "FIXPOINT", "second compare reports changes", "")
+  /\ Chk(LastEv.ev = "Done" => Equivalent, "EQUIV", IF nchg = 0 THEN "unchanged" ELSE "final", KF_Resume)
+  /\ Chk(LastEv.ev = "Done" => LastEv.n2 = 0, "FIXPOINT", "second compare reports changes", KF_Resume)
 Accepted == TLCGet("stats").diameter = Len(Trace)
 =============================================================================
